@@ -44,6 +44,9 @@ func genOut(t *rapid.T) Out {
 	if o.Dummy {
 		o.WaitMs = rapid.SampledFrom([]int{0, 0, 1, 40, 100, 300}).Draw(t, "dummyWait")
 	}
+	if o.Hls {
+		o.HlsFragMs = rapid.SampledFrom([]int{100, 100, 1000, 3000}).Draw(t, "hlsFragMs")
+	}
 	o.Gop = rapid.SampledFrom([]int{0, 0, 1, 2}).Draw(t, "gop")
 	o.GopMax = rapid.SampledFrom([]int{0, 0, 1, 3}).Draw(t, "gopMax")
 	o.Merge = rapid.SampledFrom([]int{0, 0, 0, 300, 4096}).Draw(t, "merge")
@@ -115,7 +118,47 @@ func seqHeader(kind string, variant int) (typ uint8, b []byte) {
 	}
 }
 
+// genAnnexbSeq: a sequence header whose body is not a configuration record but Annex-B data (some encoders send
+// that; lal's HEVC parser falls back to scanning for start codes).
+func genAnnexbSeq(t *rapid.T) Msg {
+	hdr := rapid.SampledFrom([][]byte{{0x1c, 0, 0, 0, 0}, {0x1c, 0, 0, 0, 0}, {0x17, 0, 0, 0, 0}, {0x90, 'h', 'v', 'c', '1'}}).Draw(t, "abHdr")
+	b := append([]byte(nil), hdr...)
+	vps, sps, pps := gen.ParamSets("hevc", 0)
+	if hdr[0] == 0x17 {
+		vps, sps, pps = gen.ParamSets("avc", 0)
+	}
+	n := rapid.IntRange(1, 6).Draw(t, "abUnits")
+	for i := 0; i < n; i++ {
+		if rapid.IntRange(0, 3).Draw(t, "abStart3") == 0 {
+			b = append(b, 0, 0, 1)
+		} else {
+			b = append(b, 0, 0, 0, 1)
+		}
+		switch rapid.IntRange(0, 6).Draw(t, "abUnit") {
+		case 0:
+			b = append(b, vps...)
+		case 1:
+			b = append(b, sps...)
+		case 2:
+			b = append(b, pps...)
+		case 3:
+			// empty unit: two adjacent start codes / a start code at the very end
+		case 4:
+			b = append(b, sps[:rapid.IntRange(1, len(sps)-1).Draw(t, "abSpsCut")]...)
+		default:
+			b = append(b, drawBytes(t, 1, 3, "abShort")...)
+		}
+	}
+	for len(b) < 34 && rapid.Bool().Draw(t, "abPad") {
+		b = append(b, 0)
+	}
+	return Msg{Type: gen.TypeVideo, Class: "trunc-seqhdr/annexb", Incons: true, Raw: b}
+}
+
 func genTruncSeq(t *rapid.T) Msg {
+	if rapid.IntRange(0, 5).Draw(t, "shAnnexb") == 0 {
+		return genAnnexbSeq(t)
+	}
 	kind := rapid.SampledFrom([]string{"avc", "avc", "hevc", "hevc-enh", "aac"}).Draw(t, "shKind")
 	typ, full := seqHeader(kind, rapid.IntRange(0, 2).Draw(t, "shVariant"))
 	m := Msg{Type: typ, Class: "trunc-seqhdr/" + kind, Incons: true, Raw: full}
@@ -496,8 +539,11 @@ func genCase(t *rapid.T) Case {
 	if pbt.Thorough() {
 		maxNal = 20000
 	}
+	// timestamps: "calm" cases keep the stream's timeline (hostile messages carry timestamps near the current one), so
+	// that the remuxers / HLS fragmenter follow their ordinary paths; "jumpy" cases displace timestamps freely
+	calm := rapid.IntRange(0, 9).Draw(t, "tsCalm") < 4
 	o := gen.StreamOpts{Video: []string{"avc", "avc", "hevc", "hevc", ""}, Audio: audio, MaxGops: 3, MaxGopLen: 4, MaxNalLen: maxNal,
-		SizeEdges: []int{1200 - 4, 188 - 20}, AllowEmpty: true, HeaderChurn: true, TsJumps: true, MultiNal: true, Cts: true}
+		SizeEdges: []int{1200 - 4, 188 - 20}, AllowEmpty: true, HeaderChurn: true, TsJumps: !calm, MultiNal: true, Cts: true}
 	c.Codecs = gen.GenCodecs(t, o)
 	var skel []gen.Item
 	skelMode := rapid.SampledFrom([]string{"full", "full", "full", "full", "no-headers", "none"}).Draw(t, "skeleton")
@@ -522,6 +568,9 @@ func genCase(t *rapid.T) Case {
 	var tsOff uint32
 	cur := uint32(0)
 	hostileTs := func() uint32 {
+		if calm {
+			return cur + uint32(rapid.IntRange(0, 60).Draw(t, "tsNear"))
+		}
 		switch rapid.IntRange(0, 9).Draw(t, "tsKind") {
 		case 0, 1, 2, 3, 4:
 			return cur + uint32(rapid.IntRange(0, 60).Draw(t, "tsNear"))
@@ -558,12 +607,19 @@ func genCase(t *rapid.T) Case {
 			break
 		}
 		it := skel[i]
-		if rapid.IntRange(0, 19).Draw(t, "tsJump") == 0 {
+		if !calm && rapid.IntRange(0, 19).Draw(t, "tsJump") == 0 {
 			// the whole remaining stream moves: big forward / backward jump, wrap-around
-			tsOff += rapid.SampledFrom([]uint32{0xFFFFFFFF, 0xFFFFFF00, 0x80000000, 0x7FFFFFFF, 0x1000000, 3600000, 61000, 59000, ^uint32(5000) + 1, ^uint32(100000) + 1}).Draw(t, "jumpBy")
+			if rapid.IntRange(0, 2).Draw(t, "jumpLands") == 0 {
+				// land this item just below a wrap-around point, so that the following ones cross it
+				d := uint32(rapid.SampledFrom([]int{0, 1, 20, 21, 22, 33, 40, 41, 60, 80, 100, 120, 200}).Draw(t, "landBefore"))
+				target := rapid.SampledFrom([]uint32{0xFFFFFFFF, 0xFFFFFFFF, 0xFFFFFF, 0x7FFFFFFF}).Draw(t, "landAt") - d
+				tsOff = target - it.Ts
+			} else {
+				tsOff += rapid.SampledFrom([]uint32{0xFFFFFFFF, 0xFFFFFF00, 0x80000000, 0x7FFFFFFF, 0x1000000, 3600000, 61000, 59000, ^uint32(5000) + 1, ^uint32(100000) + 1}).Draw(t, "jumpBy")
+			}
 		}
 		it.Ts += tsOff
-		if rapid.IntRange(0, 29).Draw(t, "tsPin") == 0 {
+		if !calm && rapid.IntRange(0, 29).Draw(t, "tsPin") == 0 {
 			it.Ts = rapid.SampledFrom(specialTs).Draw(t, "tsPinTo")
 		}
 		if it.Kind != "meta" {
@@ -698,7 +754,7 @@ func classify(c Case) (bool, []string) {
 		if i > 0 && m.Type != gen.TypeData {
 			d := m.Ts - prev
 			switch {
-			case d > 0x80000000 && d != 0:
+			case d > 0x80000000 && prev-m.Ts > 1000:
 				labels = append(labels, "ts-jump:backward")
 			case d >= 60000:
 				labels = append(labels, "ts-jump:forward>=60s")
